@@ -524,6 +524,7 @@ func (h *coreH) exec(line string) string {
 			h.lastImport += "supply differs; "
 		}
 		h.f = f2
+		lastFix = f2 // C12: the per-op store digests follow the history onto the imported application
 		h.installSeam()
 		return "ok"
 	case "begin":
